@@ -308,6 +308,13 @@ def mark_loop(ctx, rule):
     qn = 'SimulatedBroker.update'
     fn = ctx.fn(qn)
     ps = summarise(ctx, qn, policy=lambda a, b, d: default_policy(a, b, d) and b.qn != 'SimulatedBroker._execute_order')
+    # marks prepared as callables and applied later: each must be bound to the portfolio and asset it was created for
+    from .c16 import late_bound_loop_lambdas
+    for site_, names_, src_ in late_bound_loop_lambdas(ctx, qn):
+        if 'update_market_value_of_asset' in src_:
+            ctx.violation(rule, 'every held asset is marked in the portfolio that holds it', site_,
+                          'the deferred mark reads the loop variable%s %s when it is finally called (after the loop has moved on): every mark goes to the last one' % (
+                              's' if len(names_) > 1 else '', ', '.join(names_)), key='%s|late-binding' % rule)
     for p in normal(ps):
         marks = []
 
